@@ -1,3 +1,369 @@
-import PybtexModel.Model.Basic
+/-
+C05 — citation resolution: cited, wildcard and cross-referenced entries, in order.
+
+Property theorems only.  Model of the code: `Model/Db.lean`, `Model/Citations.lean` (on the
+containers of C13); reference specification: `Spec/Citations.lean`; helper lemmas:
+`Lemmas/Citations.lean`, `Lemmas/Filtered.lean`.
+
+`DbWF db` (decidable; `Lemmas/Citations.lean`) says that the containers of `db` satisfy the C13
+lock-step invariant and that every entry is stored under its own key; `readFile_spec` shows
+that every database the reader builds is well formed, whatever the file.  `db.toS` is the plain
+list of entries the specification talks about.
+-/
+import PybtexModel.Lemmas.Filtered
+
 namespace Pybtex.Props
+open Pybtex Spec
+
+/-! ### examples used by the non-vacuity theorems -/
+
+/-- `@misc{key, note = {n}}` or `@misc{key, note = {n}, crossref = {x}}` -/
+def mk (key : String) (xref : Option String) : Str × Entry :=
+  (key.toList,
+   { key := [], type := "misc".toList,
+     fields := CIDict.ofPairs (("note".toList, "n".toList) ::
+       (match xref with | some x => [("crossref".toList, x.toList)] | none => [])),
+     persons := CIDict.empty })
+
+/-- children `c1`, `C2` of parent `P` (which comes last), a dangling child `d`, a loner `x` -/
+def exFile : List (Str × Entry) :=
+  [mk "c1" (some "p"), mk "C2" (some "P"), mk "d" (some "nowhere"), mk "x" none, mk "P" none]
+
+def readAllOf (file : List (Str × Entry)) : BibData :=
+  match BibData.readFile none file with
+  | some (db, _) => db
+  | none => BibData.init none
+
+instance {V : Type} (d : CIDict V) : Decidable (CIDict.Inv d) := by
+  unfold CIDict.Inv Lock; exact inferInstance
+
+instance (d : BibData) : Decidable (DbWF d) :=
+  decidable_of_iff (CIDict.Inv d.entries ∧ (∀ t ∈ CIDict.abs d.entries, t.2.2.key = t.2.1) ∧
+      ∀ t ∈ CIDict.abs d.entries, CIDict.Inv t.2.2.fields ∧ CIDict.Inv t.2.2.persons)
+    ⟨fun h => ⟨h.1, h.2.1, fun t ht => ⟨(h.2.2 t ht).1, (h.2.2 t ht).2⟩⟩,
+     fun h => ⟨h.inv, h.keyEq, fun t ht => ⟨(h.entries t ht).fields, (h.entries t ht).persons⟩⟩⟩
+
+/-- string literals as model strings -/
+def strs (l : List String) : List Str := l.map String.toList
+
+/-- Every database the reader builds is well formed (and reading never raises): the hypothesis
+`DbWF` of the theorems below holds for all of them. -/
+theorem C05_reader_wf (wanted : Option (List Str)) (file : List (Str × Entry))
+    (hf : ∀ p ∈ file, EntryWF p.2) :
+    ∃ db rep, BibData.readFile wanted file = some (db, rep) ∧ DbWF db :=
+  let ⟨d, rep, h, hw, _⟩ := readFile_spec wanted file hf
+  ⟨d, rep, h, hw⟩
+
+/-- The cited part: `_expand_wildcard_citations` yields exactly the case-insensitive
+de-duplication (first spelling wins) of the citation list in which every `*` has been replaced,
+in place, by all database keys in database order. -/
+theorem C05_expand_spec (db : BibData) (hdb : DbWF db) (citations : List Str) :
+    db.expandWildcard citations = dedupCI (substStar db.toS citations) :=
+  expandWildcard_spec hdb citations
+
+theorem C05_expand_spec_nonvacuous :
+    DbWF (readAllOf exFile) ∧
+    (readAllOf exFile).expandWildcard ["x".toList, "*".toList, "C1".toList, "X".toList, "q".toList]
+      = (strs ["x", "c1", "C2", "d", "P", "q"]) := by decide
+
+/-- The appended part: `_get_crossreferenced_citations` yields exactly the parents that are not
+cited, in the order in which the number of references to them — counted along the cited list —
+reaches `min_crossrefs`, and reports exactly the dangling cross-references of cited entries. -/
+theorem C05_crossref_spec (db : BibData) (hdb : DbWF db) (citations : List Str) (minCrossrefs : Int) :
+    db.addExtraCitations citations minCrossrefs =
+      (resolved db.toS citations minCrossrefs,
+       (dangling db.toS (expanded db.toS citations)).map fun p => Report.badCrossref p.1 p.2) := by
+  simp only [BibData.addExtraCitations, crossreferenced_spec hdb, expandWildcard_spec hdb, resolved]
+
+theorem C05_crossref_spec_nonvacuous :
+    (readAllOf exFile).addExtraCitations (strs ["C2", "d", "c1"]) 2
+      = ((strs ["C2", "d", "c1", "P"]), [Report.badCrossref "d".toList "nowhere".toList]) ∧
+    (readAllOf exFile).addExtraCitations (strs ["C2", "d", "c1"]) 3
+      = ((strs ["C2", "d", "c1"]), [Report.badCrossref "d".toList "nowhere".toList]) := by decide
+
+/-- No two keys of the result are equal up to case. -/
+theorem C05_no_dup (db : BibData) (hdb : DbWF db) (citations : List Str) (minCrossrefs : Int) :
+    ((db.addExtraCitations citations minCrossrefs).1.map lower).Nodup := by
+  rw [C05_crossref_spec db hdb]
+  apply pairwise_keq_nodup
+  unfold resolved
+  rw [List.pairwise_append]
+  refine ⟨dedupFrom_pairwise _ _, ?_, ?_⟩
+  · refine (extraFrom_pairwise (pre := [])).imp ?_
+    intro a b ⟨n, h1, h2⟩
+    rw [Bool.eq_false_iff]
+    intro hk
+    rw [refCount_congr ((keq_iff a b).1 hk)] at h1
+    omega
+  · intro a ha b hb
+    have hc := (mem_extraFrom hb).1
+    rw [Bool.eq_false_iff]
+    intro hk
+    have : cited (expanded db.toS citations) b = true := by
+      unfold cited
+      rw [List.any_eq_true]
+      exact ⟨a, ha, by rw [keq_comm]; exact hk⟩
+    rw [hc] at this
+    cases this
+
+/-- Explicit citations that precede any wildcard come first, in first-citation order,
+de-duplicated, spelled as cited; the cross-referenced extras come after every cited key. -/
+theorem C05_cited_first_in_order (db : BibData) (hdb : DbWF db) (pre rest : List Str) (minCrossrefs : Int)
+    (hpre : Spec.star ∉ pre) :
+    ∃ tail, db.expandWildcard (pre ++ rest) = dedupCI pre ++ tail ∧
+      (db.addExtraCitations (pre ++ rest) minCrossrefs).1 =
+        dedupCI pre ++ tail ++ (db.crossreferenced (db.expandWildcard (pre ++ rest)) minCrossrefs).1 := by
+  have hs : substStar db.toS (pre ++ rest) = pre ++ substStar db.toS rest := by
+    unfold substStar
+    rw [List.flatMap_append]
+    congr 1
+    clear hdb
+    induction pre with
+    | nil => rfl
+    | cons c pre ih =>
+      simp only [List.mem_cons, not_or] at hpre
+      have hc : ¬ c = Spec.star := fun h => hpre.1 h.symm
+      simp [List.flatMap_cons, hc, ih hpre.2]
+  refine ⟨dedupFrom ((dedupFrom [] pre).reverse ++ []) (substStar db.toS rest), ?_, ?_⟩
+  · rw [expandWildcard_spec hdb, expanded, dedupCI, hs, dedupFrom_append]; rfl
+  · simp only [BibData.addExtraCitations]
+    rw [expandWildcard_spec hdb, expanded, dedupCI, hs, dedupFrom_append]; rfl
+
+theorem C05_cited_first_in_order_nonvacuous :
+    ((readAllOf exFile).addExtraCitations (strs ["x", "C1", "X", "q"] ++ ["*".toList, "d".toList]) 1).1
+      = dedupCI ((strs ["x", "C1", "X", "q"])) ++ (strs ["C2", "d", "P"]) := by decide
+
+/-- `*` stands for every database entry, in database order: after the explicit citations `pre`
+the wildcard contributes exactly the database keys not yet cited, in database order and in
+their database spelling.  In particular `[*]` resolves to the whole database in order. -/
+theorem C05_wildcard_db_order (db : BibData) (hdb : DbWF db) (pre rest : List Str) (hpre : Spec.star ∉ pre) :
+    (∃ tail, db.expandWildcard (pre ++ Pybtex.star :: rest) =
+      dedupCI pre ++ (CIDict.iter db.entries).filter (fun k => !cited pre k) ++ tail) ∧
+    db.expandWildcard [Pybtex.star] = CIDict.iter db.entries := by
+  have hwf := nodup_pairwise_keq (toS_wf hdb)
+  have hs : ∀ r, substStar db.toS (Spec.star :: r) = keys db.toS ++ substStar db.toS r := by
+    intro r; rw [substStar_cons, if_pos rfl]
+  constructor
+  · obtain ⟨tail, h1, -⟩ := C05_cited_first_in_order db hdb pre [] 1 hpre
+    have hs' : substStar db.toS (pre ++ Spec.star :: rest) = pre ++ (keys db.toS ++ substStar db.toS rest) := by
+      rw [← hs]
+      unfold substStar
+      rw [List.flatMap_append]
+      congr 1
+      clear h1 hdb hwf hs
+      induction pre with
+      | nil => rfl
+      | cons c pre ih =>
+        simp only [List.mem_cons, not_or] at hpre
+        have hc : ¬ c = Spec.star := fun h => hpre.1 h.symm
+        simp [List.flatMap_cons, hc, ih hpre.2]
+    refine ⟨dedupFrom ((dedupFrom ((dedupFrom [] pre).reverse ++ []) (keys db.toS)).reverse ++ ((dedupFrom [] pre).reverse ++ []))
+      (substStar db.toS rest), ?_⟩
+    show db.expandWildcard (pre ++ Spec.star :: rest) = _
+    rw [expandWildcard_spec hdb, expanded, dedupCI, hs', dedupFrom_append, dedupFrom_append, dedupFrom_filter hwf,
+      iter_entries hdb, ← List.append_assoc]
+    congr 2
+    apply List.filter_congr
+    intro k _
+    simp only [List.append_nil, List.any_reverse, cited]
+    congr 1
+    rw [Bool.eq_iff_iff]
+    constructor
+    · intro h
+      obtain ⟨x, hx, hk⟩ := List.any_eq_true.1 h
+      exact List.any_eq_true.2 ⟨x, (mem_dedupFrom hx).1, hk⟩
+    · intro h
+      obtain ⟨x, hx, hk⟩ := List.any_eq_true.1 h
+      rcases dedupFrom_complete [] pre hx with h' | h'
+      · simp at h'
+      · obtain ⟨y, hy, hxy⟩ := List.any_eq_true.1 h'
+        exact List.any_eq_true.2 ⟨y, hy, by rw [keq_iff] at hk hxy ⊢; rw [hk, hxy]⟩
+  · show db.expandWildcard [Spec.star] = _
+    rw [expandWildcard_spec hdb, expanded, dedupCI, hs, substStar, List.flatMap_nil, List.append_nil,
+      dedupFrom_filter hwf, iter_entries hdb]
+    simp
+
+theorem C05_wildcard_db_order_nonvacuous :
+    (readAllOf exFile).expandWildcard ["*".toList] = (strs ["c1", "C2", "d", "x", "P"]) ∧
+    (readAllOf exFile).expandWildcard ["X".toList, "p".toList, "*".toList, "q".toList]
+      = (strs ["X", "p", "c1", "C2", "d", "q"]) := by decide
+
+/-- Threshold: with `L` the cited list and `X` the appended keys,
+(1) a key is appended (up to case) iff it is not cited and at least `min_crossrefs` (and at least
+one) of the cited entries reference it; (2) no key is appended twice; (3) the appended keys are
+in the order in which they reach the threshold: for `a` before `b` there is a prefix of `L` at
+which `a` has reached it and `b` has not; (4) every appended key is the key of a database entry
+that a cited entry references. -/
+theorem C05_threshold (db : BibData) (hdb : DbWF db) (L : List Str) (minCrossrefs : Int) :
+    let X := (db.crossreferenced L minCrossrefs).1
+    (∀ k, X.any (keq k) = true ↔
+        (cited L k = false ∧ max minCrossrefs 1 ≤ (refCount db.toS k L : Int))) ∧
+    (X.map lower).Nodup ∧
+    X.Pairwise (fun a b => ∃ n, max minCrossrefs 1 ≤ (refCount db.toS a (L.take n) : Int) ∧
+        (refCount db.toS b (L.take n) : Int) < max minCrossrefs 1) ∧
+    (∀ x ∈ X, ∃ c ∈ L, ∃ P ∈ db.toS, parentOf db.toS c = some P ∧ P.key = x) := by
+  intro X
+  have hX : X = extra db.toS L minCrossrefs := by simp only [X, crossreferenced_spec hdb]
+  rw [hX]
+  have hpw := extraFrom_pairwise (sdb := db.toS) (m := minCrossrefs) (L := L) (suf := L) (pre := [])
+  refine ⟨?_, ?_, hpw, ?_⟩
+  · intro k
+    constructor
+    · intro h
+      obtain ⟨x, hx, hk⟩ := List.any_eq_true.1 h
+      obtain ⟨h1, -, h3, -⟩ := mem_extraFrom hx
+      have hl := (keq_iff k x).1 hk
+      rw [cited_congr hl, refCount_congr hl]
+      exact ⟨h1, h3⟩
+    · rintro ⟨h1, h2⟩
+      exact extraFrom_complete h1 (by simp [refCount]; omega) h2
+  · apply pairwise_keq_nodup
+    refine hpw.imp ?_
+    intro a b ⟨n, h1, h2⟩
+    rw [Bool.eq_false_iff]
+    intro hk
+    rw [refCount_congr ((keq_iff a b).1 hk)] at h1
+    omega
+  · intro x hx
+    obtain ⟨-, -, -, c, hc, P, hP, hk⟩ := mem_extraFrom hx
+    refine ⟨c, hc, P, ?_, hP, hk⟩
+    unfold parentOf at hP
+    cases hf : find db.toS c with
+    | none => simp [hf] at hP
+    | some e =>
+      simp only [hf, Option.bind_some] at hP
+      cases hx' : e.crossref with
+      | none => simp [hx'] at hP
+      | some x' =>
+        simp only [hx', Option.bind_some] at hP
+        exact List.mem_of_find?_eq_some hP
+
+theorem C05_threshold_nonvacuous :
+    -- two children cite `P`: appended at 2, not at 3; one child cited: appended only at 1; parent cited: never
+    ((readAllOf exFile).crossreferenced (strs ["c1", "C2"]) 2).1 = ["P".toList] ∧
+    ((readAllOf exFile).crossreferenced (strs ["c1", "C2"]) 3).1 = [] ∧
+    ((readAllOf exFile).crossreferenced (strs ["c1"]) 1).1 = ["P".toList] ∧
+    ((readAllOf exFile).crossreferenced (strs ["c1"]) 2).1 = [] ∧
+    ((readAllOf exFile).crossreferenced (strs ["c1", "p", "C2"]) 1).1 = [] := by decide
+
+/-- A cited key that is missing from the database is reported and not kept, by both engines'
+front ends, and neither front end ever ends in an uncaught exception: for every file, citation
+list and threshold both produce a result; the keys they emit are exactly the resolved keys that
+have an entry (for the Python engine: the stored keys of those entries), and every resolved key
+without an entry is reported as missing. -/
+theorem C05_missing_reported (file : List (Str × Entry)) (hf : ∀ p ∈ file, EntryWF p.2)
+    (citations : List Str) (minCrossrefs : Int) :
+    ∃ db rep, BibData.readFile (some citations) file = some (db, rep) ∧ DbWF db ∧
+      let res := db.addExtraCitations citations minCrossrefs
+      (∃ out, bibtexEngine file citations minCrossrefs = some out ∧
+          out.keys = present db.toS res.1 ∧
+          out.reports = rep ++ res.2 ++ (missing db.toS res.1).map Report.missingEntry) ∧
+      (∃ out, pythonEngine file citations minCrossrefs = some out ∧
+          out.keys.map lower = (present db.toS res.1).map lower ∧
+          out.reports = rep ++ res.2 ++ (missing db.toS res.1).map Report.missingEntry) := by
+  obtain ⟨db, rep, hr, hdb, -⟩ := readFile_spec (some citations) file hf
+  refine ⟨db, rep, hr, hdb, ?_⟩
+  intro res
+  have hrm := removeMissing_spec hdb res.1
+  refine ⟨⟨_, by simp only [bibtexEngine, hr]; rfl, hrm.1, by rw [hrm.2]⟩, ?_⟩
+  obtain ⟨es, hes, hkeys⟩ := lookupAll_present hdb res.1
+  refine ⟨⟨es.map (·.key), rep ++ res.2 ++ (db.removeMissing res.1).2⟩, ?_, hkeys, by rw [hrm.2]⟩
+  simp only [pythonEngine, hr, BibData.removeMissingPy]
+  show (match db.lookupAll (db.removeMissing res.1).1 with | none => none | some es => _) = _
+  rw [hrm.1, hes]
+
+theorem C05_missing_reported_nonvacuous :
+    bibtexEngine exFile (strs ["c1", "nope", "C2"]) 2 =
+      some ⟨(strs ["c1", "C2", "P"]), [Report.missingEntry "nope".toList]⟩ ∧
+    pythonEngine exFile (strs ["c1", "nope", "C2"]) 2 =
+      some ⟨(strs ["c1", "C2", "P"]), [Report.missingEntry "nope".toList]⟩ := by decide
+
+/-- A dangling cross-reference of a cited entry is reported — exactly those, once each, in
+citation order — and its target is never added: every appended key has a database entry. -/
+theorem C05_dangling_reported (db : BibData) (hdb : DbWF db) (citations : List Str) (minCrossrefs : Int) :
+    let res := db.addExtraCitations citations minCrossrefs
+    res.2 = (dangling db.toS (db.expandWildcard citations)).map (fun p => Report.badCrossref p.1 p.2) ∧
+    (∀ c x, (c, x) ∈ dangling db.toS (db.expandWildcard citations) ↔
+        c ∈ db.expandWildcard citations ∧ ∃ e, find db.toS c = some e ∧ e.crossref = some x ∧ find db.toS x = none) ∧
+    (∀ k ∈ (db.crossreferenced (db.expandWildcard citations) minCrossrefs).1, (find db.toS k).isSome = true) := by
+  intro res
+  refine ⟨?_, ?_, ?_⟩
+  · simp only [res, C05_crossref_spec db hdb, expandWildcard_spec hdb]
+  · intro c x
+    simp only [dangling, List.mem_filterMap]
+    constructor
+    · rintro ⟨c', hc', h⟩
+      cases hf : find db.toS c' with
+      | none => simp [hf] at h
+      | some e =>
+        simp only [hf, Option.bind_some] at h
+        cases hx : e.crossref with
+        | none => simp [hx] at h
+        | some x' =>
+          simp only [hx, Option.bind_some] at h
+          cases hfx : find db.toS x' with
+          | some _ => simp [hfx] at h
+          | none =>
+            simp only [hfx, Option.some.injEq, Prod.mk.injEq] at h
+            obtain ⟨rfl, rfl⟩ := h
+            exact ⟨hc', e, hf, hx, hfx⟩
+    · rintro ⟨hc, e, hf, hx, hfx⟩
+      exact ⟨c, hc, by simp [hf, hx, hfx]⟩
+  · intro k hk
+    obtain ⟨_, -, P, hP, -, hkey⟩ := (C05_threshold db hdb _ minCrossrefs).2.2.2 k hk
+    rw [← hkey]
+    unfold find
+    rw [List.find?_isSome]
+    exact ⟨P, hP, keq_refl _⟩
+
+theorem C05_dangling_reported_nonvacuous :
+    ((readAllOf exFile).addExtraCitations (strs ["d", "*"]) 1).2
+      = [Report.badCrossref "d".toList "nowhere".toList] := by decide
+
+/-- The spelling in the citation list wins.  (1) In the resolved list an explicitly cited key
+(before any wildcard) appears exactly as first cited, whatever the database calls it
+(`C05_cited_first_in_order`).  (2) The filtered reading both engines use stores every entry
+whose key matches a citation under a spelling taken from the citation list, so `entry.key` —
+what the Python engine emits — is a citation's spelling; when the citations of that key are
+spelled consistently it is that spelling. -/
+theorem C05_citation_spelling_wins (file : List (Str × Entry)) (hf : ∀ p ∈ file, EntryWF p.2)
+    (citations : List Str) :
+    ∃ db rep, BibData.readFile (some citations) file = some (db, rep) ∧
+      (∀ k ∈ CIDict.iter db.entries, cited citations k = true → k ∈ citations) ∧
+      (∀ k ∈ CIDict.iter db.entries, ∀ c ∈ citations, keq c k = true →
+          (∀ c' ∈ citations, keq c' c = true → c' = c) → k = c) ∧
+      (∀ (pre rest : List Str) (m : Int), citations = pre ++ rest → Spec.star ∉ pre →
+          dedupCI pre <+: (db.addExtraCitations citations m).1) := by
+  obtain ⟨db, rep, hr, hdb, -⟩ := readFile_spec (some citations) file hf
+  have hsp := readFile_spelling citations file hr
+  refine ⟨db, rep, hr, hsp, ?_, ?_⟩
+  · intro k hk c hc hck hcons
+    have hcit : cited citations k = true := List.any_eq_true.2 ⟨c, hc, by rw [keq_comm]; exact hck⟩
+    have hmem := hsp k hk hcit
+    exact hcons k hmem (by rw [keq_comm]; exact hck)
+  · intro pre rest m hcit hpre
+    subst hcit
+    obtain ⟨tail, -, h2⟩ := C05_cited_first_in_order db hdb pre rest m hpre
+    rw [h2, List.append_assoc]
+    exact List.prefix_append _ _
+
+theorem C05_citation_spelling_wins_nonvacuous :
+    -- the file says `c1`, `C2`, `P`; the citations say `C1`, `c2`: the citations win, the uncited parent keeps its own
+    pythonEngine exFile (strs ["C1", "c2"]) 2 = some ⟨(strs ["C1", "c2", "P"]), []⟩ ∧
+    bibtexEngine exFile (strs ["C1", "c2"]) 2 = some ⟨(strs ["C1", "c2", "P"]), []⟩ := by decide
+
+/-- Finding #16: the full statement "filtered reading = unfiltered reading" is false of the code.
+Witness: the uncited parent `P` precedes its only child `c`; read whole, `c` brings `P` in; read
+filtered by the citations, `P` has been skipped before `c` makes it wanted, so `c` has a bad
+cross-reference and `P` is not appended — the two results differ even up to case. -/
+theorem C05_filtered_neg :
+    let file := [mk "P" none, mk "c" (some "P"), mk "x" none]
+    let cits := ["c".toList]
+    (BibData.readFile none file).map (fun r => (r.1.addExtraCitations cits 1)) =
+      some (["c".toList, "P".toList], []) ∧
+    (BibData.readFile (some cits) file).map (fun r => (r.1.addExtraCitations cits 1)) =
+      some (["c".toList], [Report.badCrossref "c".toList "P".toList]) ∧
+    proviso ([mk "P" none, mk "c" (some "P"), mk "x" none].map rawToS) cits = false := by
+  decide
+
 end Pybtex.Props
